@@ -28,6 +28,8 @@
 (*   "goint"    the integer 5 (or 3000000000 if big) as Go type g          *)
 (*   "nilitem"  the natural list with its second element nil               *)
 (*   "wrongitem" ... with its second element a value of a foreign kind     *)
+(*   "titems"   the natural list, every ITEM delivered as a deferred value *)
+(*              (transparent: the response is that of the plain list)      *)
 (*   rt |-> runtime type name for abstract positions ("" = unresolvable),  *)
 (*   rts |-> <<...>> per list element, len |-> list length                 *)
 (***************************************************************************)
@@ -220,8 +222,12 @@ ExecField(E, ot, g, src, path) ==
                                  THEN [nv EXCEPT !.items[2] = NullV] ELSE nv, path)
                [] OTHER -> CompleteV(E, fd.type, g, ValueFor(E.S, fd.type, ctag, fn, oc), path)
         deferred == oc.k \in {"thunk", "thunkerr", "badthunk"}
+        \* "titems": the deferred values are the items; an item of non-null type that fails kills the list,
+        \* and that failure is the last required error of the list's completion
+        lt == Nullable(fd.type)
+        itemsDeferredNN == oc.k = "titems" /\ IsListT(lt) /\ IsNN(Unwrap(lt)) /\ r.errd /\ r.errs # <<>>
     IN [r EXCEPT !.calls = <<call>> \o @,
-                 !.esc = IF deferred /\ IsNN(fd.type) /\ r.bub THEN Append(@, r.errs[Len(r.errs)]) ELSE @]
+                 !.esc = IF (deferred /\ IsNN(fd.type) /\ r.bub) \/ itemsDeferredNN THEN Append(@, r.errs[Len(r.errs)]) ELSE @]
 
 ExecGroups(E, ot, groups, i, src, path, acc) ==
   IF i > Len(groups)
